@@ -82,10 +82,18 @@ def tokenize(s):
 class LParser(Parser):
     """statement-level parser on top of the expression parser of rs2lean.py"""
 
+    STRUCT_ARRAYS = {"U32s": "u32"}      # newtype structs over `[elem; N]` (single field `values`)
+
     def parse_type(self):
         if self.accept("&"):
             self.accept("mut")
             return self.parse_type()
+        if self.peek()[0] == "id" and self.peek()[1] in self.STRUCT_ARRAYS:
+            name = self.next()[1]
+            if self.accept("<"):
+                self.parse_expr(len(self.BIN) - 2)
+                self.expect(">")
+            return ("array", ("named", self.STRUCT_ARRAYS[name]), None)
         if self.peek()[0] == "id" and self.peek(1)[1] == "<" and self.peek()[1] in ("Vec", "Option"):
             name = self.next()[1]
             self.expect("<")
@@ -109,6 +117,19 @@ class LParser(Parser):
                     raise Unsupported("vec![x; n]")
                 self.accept(",")
             return ("veclit", items)
+        if k == "op" and v == "[":
+            self.next()
+            items = []
+            while not self.accept("]"):
+                items.append(self.parse_expr())
+                if self.accept(";"):
+                    if len(items) != 1:
+                        raise Unsupported("array repeat expression")
+                    cnt = self.parse_expr()
+                    self.expect("]")
+                    return ("arrayrep", items[0], cnt)
+                self.accept(",")
+            return ("arraylit", items)
         return Parser.parse_primary(self)
 
     def parse_block(self):
@@ -478,6 +499,22 @@ class LoopEmitter(NatEmitter):
         self.new_binding = False
         self.dirty = False          # a width of an undetermined integer type was needed in this pass
         self.reserved = set(LEAN_RESERVED) | {v[0] for v in fns.values()} | {v[0] for v in pfns.values()}
+        self.self_ty_override = None      # type of `Self` inside an impl of a newtype-over-array struct
+
+    def array_base(self, e, env):
+        """`x` or `x.values` for a variable of array type -> (lean term, elem type, ok)"""
+        if e[0] == "fieldn" and e[2] == "values":
+            e = e[1]
+        while e[0] in ("deref",):
+            e = e[1]
+        if e[0] == "path" and len(e[1]) == 1 and e[1][0] in env:
+            n = e[1][0]
+            if env[n][0] is None:
+                raise Unsupported(f"use of possibly uninitialised variable {n}")
+            ty = self.resolve(env[n][1])
+            if isinstance(ty, tuple) and ty[0] == "array":
+                return env[n][0], ty[1], n
+        raise Unsupported("indexing of something that is not an array variable")
 
     # ---- types
     def resolve(self, t):
@@ -523,6 +560,10 @@ class LoopEmitter(NatEmitter):
         raise Unsupported(f"width of {ty}")
 
     def tyname(self, ty):
+        if ty[0] == "array":
+            return ("array", self.tyname(ty[1]))
+        if ty[0] == "named" and ty[1] in ("Self", "Output") and self.self_ty_override is not None:
+            return self.self_ty_override
         if ty[0] == "generic":
             inner = self.tyname(ty[2])
             return ("vec", inner) if ty[1] == "Vec" else ("option", inner)
@@ -571,6 +612,35 @@ class LoopEmitter(NatEmitter):
             if env[n][0] is None:
                 raise Unsupported(f"use of possibly uninitialised variable {n}")
             return env[n][0], self.resolve(env[n][1]), None
+        if k == "fieldn" and e[2] == "values":
+            t, ety, _ = self.array_base(e, env)
+            return t, ("array", ety), None
+        if k == "index":
+            t, ety, _ = self.array_base(e[1], env)
+            self.check_no_partial(e[2])
+            i, ity, iok = self.emit(e[2], env, "usize")
+            self.unify(ity, "usize", "array index")
+            return f"({t}.getD {paren(i)} 0)", ety, self.conj(iok, f"decide ({i} < {t}.length)")
+        if k == "arrayrep":
+            inner = exp[1] if isinstance(exp, tuple) and exp[0] == "array" else None
+            v, vty, vok = self.emit(e[1], env, inner)
+            c, cty, cok = self.emit(e[2], env, "usize")
+            self.unify(cty, "usize", "array length")
+            return f"(List.replicate {paren(c)} {paren(v)})", ("array", vty), self.conj(vok, cok)
+        if k == "mcall" and e[2] == "overflowing_mul" and len(e[3]) == 1:
+            a, aty, aok = self.emit(e[1], env, None)
+            b, bty, bok = self.emit(e[3][0], env, aty)
+            ty = self.unify(aty, bty, "overflowing_mul")
+            w = self.width(ty)
+            return f"((({a} * {b}) % {p2(w)}, decide ({a} * {b} ≥ {p2(w)})) : Nat × Bool)", \
+                ("tuple", [ty, "bool"]), self.conj(aok, bok)
+        if k == "mcall" and e[2] == "into" and not e[3]:
+            a, aty, aok = self.emit(e[1], env, None)
+            if aty == "bool" and exp in INT_TYPES:
+                return f"(if {a} then 1 else 0)", exp, aok
+            if self.resolve(aty) in INT_TYPES and exp in INT_TYPES and INT_TYPES[self.resolve(aty)] <= INT_TYPES[exp]:
+                return a, exp, aok
+            raise Unsupported("into() with undetermined target type")
         if k == "path" and e[1] == ["None"]:
             inner = exp[1] if isinstance(exp, tuple) and exp[0] == "option" else "int?"
             return "none", ("option", inner), None
@@ -590,6 +660,11 @@ class LoopEmitter(NatEmitter):
                 inner = exp[1] if isinstance(exp, tuple) and exp[0] == "option" else None
                 t, ty, ok = self.emit(e[2][0], env, inner)
                 return f"(some {paren(t)})", ("option", ty), ok
+            if len(path) == 2 and path[1] == "new" and len(e[2]) == 1 and self.self_ty_override is not None \
+                    and path[0] in ("Self",) + tuple(LParser.STRUCT_ARRAYS):
+                t, ty, ok = self.emit(e[2][0], env, self.self_ty_override)
+                self.unify(ty, self.self_ty_override, "constructor argument")
+                return t, self.self_ty_override, ok
             if path == ["Vec", "new"] and not e[2]:
                 inner = exp[1] if isinstance(exp, tuple) and exp[0] == "vec" else "int?"
                 return "[]", ("vec", inner), None
@@ -735,13 +810,17 @@ class Ctl:
 
 
 class FnTranslator:
-    def __init__(self, lname, rust_name, params, ret_ty_ast, body_toks_src, consts, fns, pfns, fuel, rel):
+    def __init__(self, lname, rust_name, params, ret_ty_ast, body_toks_src, consts, fns, pfns, fuel, rel,
+                 self_ty=None, mut_self=False):
+        self.mut_self = mut_self
+        self.self_ty = self_ty
         self.lname = lname
         self.rust_name = rust_name
         self.params = params
         self.ret_ast = ret_ty_ast
         self.src = body_toks_src
         self.em = LoopEmitter(consts, fns, pfns, rust_name)
+        self.em.self_ty_override = self_ty
         self.fuel = fuel
         self.rel = rel
 
@@ -789,6 +868,11 @@ class FnTranslator:
         calls_partial = any(("call:" + n) in names for n in self.em.pfns)
         self.partial = flags["loop"] or self.recursive or calls_partial
         self.rty = self.em.tyname(self.ret_ast) if self.ret_ast is not None else ("tuple", [])
+        self.returns_self = False
+        if self.ret_ast is None and self.mut_self:
+            # `fn f(&mut self)`: the function's result is the final value of `*self`
+            self.returns_self = True
+            self.rty = dict(self.params)["self"]
         for attempt in range(12):
             self.em.new_binding = False
             self.em.dirty = False
@@ -859,6 +943,8 @@ class FnTranslator:
         return self.wrap(v), vok
 
     def fall_off_end(self, env):
+        if self.returns_self:
+            return self.wrap(env["self"][0]), None
         if self.rty != ("tuple", []):
             raise Unsupported("function body ends without a value")
         return self.wrap("()"), None
@@ -1053,25 +1139,46 @@ class FnTranslator:
 
         if kind == "assign":
             _, lhs, op, rhs = st
-            if lhs[0] != "path" or len(lhs[1]) != 1:
-                raise Unsupported(f"assignment to {lhs[0]}")
-            name = lhs[1][0]
-            if name not in env:
-                raise Unsupported(f"assignment to unknown variable {name}")
-            entry = env[name]
-            vty0 = entry[1]
             bop = ASSIGN_OPS[op]
             em.check_no_partial(rhs)
+            if lhs[0] == "tuple":
+                # destructuring assignment `(a[i], c) = e;`: the right-hand side is evaluated first
+                if bop is not None:
+                    raise Unsupported("compound assignment to a tuple")
+                v, vty, vok = em.emit(rhs, env, None)
+                vty = em.resolve(vty)
+                if not (isinstance(vty, tuple) and vty[0] == "tuple" and len(vty[1]) == len(lhs[1])):
+                    raise Unsupported("destructuring assignment of a non-tuple")
+                env2 = dict(env)
+                tmp = em.fresh("t_assign", env2)
+                env2["\0tmp"] = (tmp, None)
+                binds = []
+                oks = []
+                for idx, (target, cty) in enumerate(zip(lhs[1], vty[1])):
+                    comp = NatEmitter.proj(tmp, idx, len(lhs[1]))
+                    ln, val, ok, env2 = self.assign_target(target, comp, cty, env2)
+                    binds.append((ln, val))
+                    oks.append(ok)
+                del env2["\0tmp"]
+                bt, bok = self.seq(stmts, i + 1, env2, k, ctl)
+                term = bt
+                okt = bok
+                for (ln, val), ok in reversed(list(zip(binds, oks))):
+                    term = self.let_(ln, val, term)
+                    okt = self.conj(ok, "(" + self.let_(ln, val, okt) + ")") if okt else ok
+                return self.let_(tmp, v, term), self.let_ok(tmp, v, vok, okt)
             if bop is None:
-                v, vty, vok = em.emit(rhs, env, vty0)
+                exp = None
+                if lhs[0] == "path" and len(lhs[1]) == 1 and lhs[1][0] in env:
+                    exp = env[lhs[1][0]][1]
+                elif lhs[0] == "index":
+                    exp = em.array_base(lhs[1], env)[1]
+                v, vty, vok = em.emit(rhs, env, exp)
             else:
-                v, vty, vok = em.emit(("bin", bop, lhs, rhs), env, vty0)
-            vty = em.unify(vty0, vty, f"assignment to {name}")
-            ln = entry[0] if entry[0] is not None else entry[2]
-            env2 = dict(env)
-            env2[name] = (ln, vty)
+                v, vty, vok = em.emit(("bin", bop, lhs, rhs), env, None)
+            ln, val, ok, env2 = self.assign_target(lhs, v, vty, env)
             bt, bok = self.seq(stmts, i + 1, env2, k, ctl)
-            return self.let_(ln, v, bt), self.let_ok(ln, v, vok, bok)
+            return self.let_(ln, val, bt), self.let_ok(ln, val, self.conj(vok, ok), bok)
 
         if kind == "mcallstmt":
             _, recv, mname, args = st[1]
@@ -1105,6 +1212,28 @@ class FnTranslator:
             return self.do_for(st, stmts, i, env, k, ctl)
         raise Unsupported(f"statement {kind}")
 
+    def assign_target(self, lhs, v, vty, env):
+        """assignment of the value `v : vty` to `x` or `a[i]` / `a.values[i]`: (lean name, new value, ok, new env)"""
+        em = self.em
+        if lhs[0] == "path" and len(lhs[1]) == 1:
+            name = lhs[1][0]
+            if name not in env:
+                raise Unsupported(f"assignment to unknown variable {name}")
+            entry = env[name]
+            ty = em.unify(entry[1], vty, f"assignment to {name}")
+            ln = entry[0] if entry[0] is not None else entry[2]
+            env2 = dict(env)
+            env2[name] = (ln, ty)
+            return ln, v, None, env2
+        if lhs[0] == "index":
+            t, ety, name = em.array_base(lhs[1], env)
+            em.unify(ety, vty, f"assignment to an element of {name}")
+            em.check_no_partial(lhs[2])
+            ix, ity, iok = em.emit(lhs[2], env, "usize")
+            em.unify(ity, "usize", "array index")
+            return t, f"{t}.set {paren(ix)} {paren(v)}", self.conj(iok, f"decide ({ix} < {t}.length)"), dict(env)
+        raise Unsupported(f"assignment to {lhs[0]}")
+
     def site_type(self, vty, site):
         """an untyped integer literal bound by `let` becomes the type variable of that let site"""
         em = self.em
@@ -1118,7 +1247,13 @@ class FnTranslator:
     # ---- leaving a nested block: variables declared inside go out of scope
     @staticmethod
     def leave(env_outer, env_inner):
-        return {n: env_inner[n] for n in env_outer}
+        out = {}
+        for n in env_outer:
+            e = env_inner[n]
+            if env_outer[n][0] is None and e[0] is not None:
+                e = env_outer[n]       # initialised inside a nested block only: still "possibly uninitialised" outside
+            out[n] = e
+        return out
 
     # ---- if
     def do_if(self, st, stmts, i, env, k, ctl):
@@ -1206,9 +1341,9 @@ class FnTranslator:
         for n in assigned_outer(body):
             if n not in env:
                 raise Unsupported(f"assignment to unknown variable {n}")
-        for n in S:
-            if env[n][0] is None:
-                raise Unsupported(f"loop assigns {n}, which is not initialised before the loop")
+        # a variable declared without initialiser and assigned inside the loop is not loop-carried: rustc's definite
+        # assignment analysis guarantees it is written before it is read in every iteration and never read afterwards
+        S = [n for n in S if env[n][0] is not None]
         used = self.free_in([cond, body] if cond is not None else [body], env)
         F = [n for n in self.env_order(env) if n in used and n not in S and env[n][0] is not None]
         # does the loop leave through `return` (only for `loop {}` without `break`) or through its state?
@@ -1228,7 +1363,7 @@ class FnTranslator:
         last_in_enclosing_loop = None
         if ctl.loops and i == len(stmts) - 1 and getattr(k, "is_loop_body", False):
             last_in_enclosing_loop = ctl.loops[-1].label
-        benv = {n: env[n] for n in F + S}
+        benv = {n: env[n] for n in self.env_order(env) if n in F + S or env[n][0] is None}
         sty = ("tuple", [em.resolve(env[n][1]) for n in S])
         if len(S) == 1:
             sty = em.resolve(env[S[0]][1])
@@ -1331,9 +1466,7 @@ class FnTranslator:
         for n in assigned_outer(body, {var}):
             if n not in env:
                 raise Unsupported(f"assignment to unknown variable {n}")
-        for n in S:
-            if env[n][0] is None:
-                raise Unsupported(f"loop assigns {n}, which is not initialised before the loop")
+        S = [n for n in S if env[n][0] is not None]
         used = self.free_in([body], env)
         F = [n for n in self.env_order(env) if n in used and n not in S and n != var and env[n][0] is not None]
         impure = self.is_partial_block(body)
@@ -1345,7 +1478,7 @@ class FnTranslator:
         walk_stmts(body, f)
         if fl["ret"]:
             raise Unsupported("`return` inside a `for` loop")
-        benv = {n: env[n] for n in F + S}
+        benv = {n: env[n] for n in self.env_order(env) if n in F + S or env[n][0] is None}
         iv = em.fresh(var, benv)
         benv[var] = (iv, ity)
         lov = None
@@ -1451,24 +1584,35 @@ class FnTranslator:
 # driver
 # --------------------------------------------------------------------------------------------------------
 
-def parse_params(text, em):
+def parse_params(text, em, self_ty=None):
+    """[(name, type)], mut_self?"""
     out = []
+    mut_self = False
     ps = LParser(tokenize(text))
     while ps.peek()[0] != "eof":
-        ps.accept("mut")
+        amp = ps.accept("&")
+        mut = ps.accept("mut")
         k, n = ps.next()
         if k != "id":
             raise Unsupported(f"parameter {n!r}")
-        ps.expect(":")
-        ty = em.tyname(ps.parse_type())
-        if not (ty in INT_TYPES or ty == "bool"):
-            raise Unsupported(f"parameter type {ty}")
-        out.append((n, ty))
+        if n == "self":
+            if self_ty is None:
+                raise Unsupported("self parameter")
+            mut_self = amp and mut
+            out.append(("self", self_ty))
+        else:
+            if amp:
+                raise Unsupported("parameter pattern")
+            ps.expect(":")
+            ty = em.tyname(ps.parse_type())
+            if not (ty in INT_TYPES or ty == "bool" or (self_ty is not None and ty == self_ty)):
+                raise Unsupported(f"parameter type {ty}")
+            out.append((n, ty))
         if not ps.accept(","):
             break
     if ps.peek()[0] != "eof":
         raise Unsupported("parameter list")
-    return out
+    return out, mut_self
 
 
 def parse_ret(text, em):
@@ -1481,13 +1625,19 @@ def parse_ret(text, em):
     return ty
 
 
-def translate_fn(src, rust_name, lname, rel, consts, fns, pfns, fuel=DEFAULT_FUEL, after=None):
-    """returns (lean text, param types, result type, partial?)"""
+def translate_fn(src, rust_name, lname, rel, consts, fns, pfns, fuel=DEFAULT_FUEL, after=None, self_ty=None,
+                 generic=None):
+    """returns (lean text, param types, result type, partial?)
+    self_ty: type of `Self` (impl of a newtype over an array); generic: name of a `const N: usize` parameter of the impl,
+    which becomes the first parameter of the Lean definition"""
     params_text, ret_text, body = find_fn(src, rust_name, after)
     probe = LoopEmitter(consts, fns, pfns, rust_name)
-    params = parse_params(params_text, probe)
+    probe.self_ty_override = self_ty
+    params, mut_self = parse_params(params_text, probe, self_ty)
+    if generic:
+        params = [(generic, "usize")] + params
     ret_ast = parse_ret(ret_text, probe)
-    tr = FnTranslator(lname, rust_name, params, ret_ast, body, consts, fns, pfns, fuel, rel)
+    tr = FnTranslator(lname, rust_name, params, ret_ast, body, consts, fns, pfns, fuel, rel, self_ty, mut_self)
     text = tr.translate()
     return text, [t for _, t in params], tr.em.resolve(tr.rty), tr.partial
 
@@ -1505,23 +1655,37 @@ MMR_LOOP_FUNCTIONS = [
 ]
 
 
-def run(status, changed, fns):
-    """called by rs2lean.py after the loop-free functions; `fns` is its registry rust name -> (lean name, param types, ret)"""
-    sa_rel = "twenty-first/src/util_types/mmr/shared_advanced.rs"
-    try:
-        sa = strip_comments(read(sa_rel))
-    except OSError as ex:
-        status["failed"]["loops: " + sa_rel] = str(ex)
-        sa = None
-    out = [HEADER.format(src=sa_rel).replace("rs2lean.py", "rs2lean.py (rs2lean_loops.py)"),
-           "import TF.Gen.MmrIndex\n", "set_option linter.unusedVariables false\n", "namespace TF.Gen.Loops\nopen TF.Gen\n"]
-    pfns = {}
-    tfns = dict((k, v) for k, v in fns.items() if v is not None)
-    for lname, rname, fuel in MMR_LOOP_FUNCTIONS:
-        if sa is None:
-            break
+U32S_IMPL = r"impl<const N: usize> U32s<N> \{"
+U32S_FUNCTIONS = [
+    # (lean name, rust name, anchor, fuel of `while` loops)
+    ("u32s_get_bit", "get_bit", U32S_IMPL, DEFAULT_FUEL),
+    ("u32s_set_bit", "set_bit", U32S_IMPL, DEFAULT_FUEL),
+    ("u32s_div_two", "div_two", U32S_IMPL, DEFAULT_FUEL),
+    ("u32s_mul_two", "mul_two", U32S_IMPL, DEFAULT_FUEL),
+    ("u32s_sub", "sub", r"impl<const N: usize> Sub for U32s<N>", DEFAULT_FUEL),
+    ("u32s_add", "add", r"impl<const N: usize> Add for U32s<N>", DEFAULT_FUEL),
+    # the carry loops `while add_carry { assert!(i + j + k < N); .. k += 1 }` visit every limb at most once
+    ("u32s_mul", "mul", r"impl<const N: usize> Mul for U32s<N>", "(N + 1)"),
+]
+# attempted on every run so that the report says why they are outside the subset (never listed as `translated`)
+U32S_OUTSIDE = [
+    ("u32s_rem_div", "rem_div", U32S_IMPL),
+    ("u32s_cmp", "cmp", r"impl<const N: usize> Ord for U32s<N>"),
+]
+
+
+def run_group(status, changed, out_name, header_src, imports, specs, read_src, tfns, pfns, outside=()):
+    out = [HEADER.format(src=header_src).replace("rs2lean.py", "rs2lean.py (rs2lean_loops.py)")]
+    out += [f"import {m}\n" for m in imports]
+    out += ["set_option linter.unusedVariables false\n", "namespace TF.Gen.Loops\nopen TF.Gen\n"]
+    for spec in specs:
+        lname, rname, fuel, rel, kw = spec
+        src = read_src(rel)
+        if src is None:
+            status["failed"][f"fn {lname}"] = "loops: source file not readable"
+            continue
         try:
-            text, ptys, rty, partial = translate_fn(sa, rname, lname, sa_rel, {}, tfns, pfns, fuel)
+            text, ptys, rty, partial = translate_fn(src, rname, lname, rel, {}, tfns, pfns, fuel, **kw)
         except Unsupported as ex:
             status["failed"][f"fn {lname}"] = "loops: " + str(ex)
             continue
@@ -1533,8 +1697,40 @@ def run(status, changed, fns):
             pfns[rname] = (lname, ptys, rty)
         else:
             tfns[rname] = (lname, ptys, rty)
-        status["translated"][lname] = {"source": sa_rel, "sha256": hashlib.sha256(text.encode()).hexdigest()[:16],
+        status["translated"][lname] = {"source": rel, "sha256": hashlib.sha256(text.encode()).hexdigest()[:16],
                                        "loops": True, "fuel": fuel}
+    for lname, rname, rel, kw in outside:
+        src = read_src(rel)
+        try:
+            translate_fn(src, rname, lname, rel, {}, tfns, pfns, DEFAULT_FUEL, **kw)
+            status.setdefault("outside_subset", {})[lname] = "translatable now (not emitted: not in the table of translated functions)"
+        except Exception as ex:
+            status.setdefault("outside_subset", {})[lname] = str(ex)
     out.append("end TF.Gen.Loops\n")
-    if write_if_changed(os.path.join(OUT, "MmrLoops.lean"), "\n".join(out)):
-        changed.append("MmrLoops")
+    if write_if_changed(os.path.join(OUT, out_name + ".lean"), "\n".join(out)):
+        changed.append(out_name)
+
+
+def run(status, changed, fns):
+    """called by rs2lean.py after the loop-free functions; `fns` is its registry rust name -> (lean name, param types, ret)"""
+    cache = {}
+
+    def read_src(rel):
+        if rel not in cache:
+            try:
+                cache[rel] = strip_comments(read(rel))
+            except OSError:
+                cache[rel] = None
+        return cache[rel]
+
+    sa_rel = "twenty-first/src/util_types/mmr/shared_advanced.rs"
+    tfns = dict((k, v) for k, v in fns.items() if v is not None)
+    run_group(status, changed, "MmrLoops", sa_rel, ["TF.Gen.MmrIndex"],
+              [(ln, rn, fuel, sa_rel, {}) for ln, rn, fuel in MMR_LOOP_FUNCTIONS], read_src, tfns, {})
+
+    u_rel = "twenty-first/src/amount/u32s.rs"
+    arr = ("array", "u32")
+    kw = lambda anchor: {"after": anchor, "self_ty": arr, "generic": "N"}
+    run_group(status, changed, "U32sLoops", u_rel, ["TF.Model.Word"],
+              [(ln, rn, fuel, u_rel, kw(anchor)) for ln, rn, anchor, fuel in U32S_FUNCTIONS], read_src, {}, {},
+              outside=[(ln, rn, u_rel, kw(anchor)) for ln, rn, anchor in U32S_OUTSIDE])
